@@ -22,7 +22,7 @@ let int_of_n = function N0 -> 0 | Npos p -> int_of_pos p
 let rec nat_of_int (n : int) : nat = let rec go k acc = if k = 0 then acc else go (k - 1) (S acc) in go n O
 
 let fuel = nat_of_int 400000
-let below_limit = 300000
+let below_limit = 20000
 
 let show_vec v = String.concat "," (List.map (fun x -> string_of_int (int_of_z x)) v)
 let show_basis b = String.concat "|" (List.map show_vec b)
